@@ -10,5 +10,9 @@ sys.path.insert(0, "/repo/src")
 import hypothesis, packaging, click, toml, lexid, bumpver
 print("setup ok: hypothesis", hypothesis.__version__, "packaging", packaging.__version__, "bumpver from", bumpver.__file__)
 PY
+# optional coverage-guided tier (harness/fuzz.py): atheris from the offline wheelhouse into /verif/.deps
+PYTHONPATH=.deps /venv/bin/python -c "import atheris" 2>/dev/null || \
+  PIP_NO_INDEX=1 /venv/bin/pip install -q --no-index --find-links /opt/veriftools/wheels --target .deps atheris 2>/dev/null || \
+  echo "setup: atheris not installed - the coverage-guided parts will report themselves unavailable"
 git --version >/dev/null
 chmod +x check fakevcs/git fakevcs/hg 2>/dev/null || true
